@@ -484,8 +484,19 @@ static void run_history(Tape &t, Ctx &cx, uint64_t fail_at, int mode, uint64_t *
         case 5: op_push(r, q, t, 2, 0); break;
         case 6: op_pull(r, q, t, 2); break;
         case 7: op_push(r, q, t, 3, 0); break;
-        case 8: op_push(r, q, t, 1, 1); break;
-        case 9: op_push(r, q, t, 0, 1); break;
+        case 8: case 9:
+            if (q.m.size() <= 1 && (r.opno & 1))
+            {
+                // the insertion-sort steps on a queue of no or one element, without a push before: nothing to move
+                g_key_at = kpos(q);
+                if (op == 8) { a_que_sort_fore(q.q, cmp_first); }
+                else { a_que_sort_back(q.q, cmp_first); }
+                r.cx.log("que%d sort_%s on %zu element(s)\n", int(&q - r.qs), op == 8 ? "fore" : "back", q.m.size());
+                verify(r, q, "sort_fore / sort_back on at most one element");
+                break;
+            }
+            op_push(r, q, t, op == 8 ? 1 : 0, 1);
+            break;
         case 10: {
             // element swap: distinct non-adjacent elements (same or other queue), or the identity swap
             Q &o = t.coin() ? r.qs[1 - ((opb >> 7) & 1)] : q;
